@@ -407,6 +407,11 @@ def rule_copy_fresh(prog: Program, report: Report) -> None:
             kw = {k.arg: k.value for k in c.keywords}
             a0 = kw.get("maps", args[0])
             a1 = kw.get("mirror", args[1])
+            from ..norm import Resolver
+
+            res_ = Resolver(owner.node)
+            a0 = res_.expr(a0, 2) if a0 is not None else None  # `maps = self.maps[:]` introduced as a local
+            a1 = res_.expr(a1, 2) if a1 is not None else None
             return {"maps": a0 is None or fresh_or_none(a0), "mirror": a1 is None or fresh_or_none(a1)}
         if isinstance(c, ast.Call) and isinstance(c.func, ast.Attribute) and isinstance(c.func.value, ast.Name) and c.func.value.id == "self" and depth < 2:
             k2 = f"{MAP}::Mapping.{c.func.attr}"
